@@ -17,6 +17,7 @@ RULE = ("one run = one generated DSL program containing `var += amount` / `var -
         "picks which instance executes its next instruction (PCT-style forced switches or "
         "uniform); distinct = distinct (program bytes, schedule) pairs; non-trivial = the "
         "instances' instructions actually interleaved")
+RULE += "; since the 4th session also a constant amount that is 0 in one of two branches taken per packet value, and a Dict entry increased by the Dict's own staging copy in one statement"
 COMPONENTS = {
     "real": ["ebpfcat.ebpf.Memory.__iadd__/__isub__/IAdd/Memory._set (byte code from "
              "EBPF.assemble)", "ArrayMap/PerCPUArrayMap/Dict/LocalVar/SubProgram declarations"],
